@@ -232,6 +232,9 @@ pub fn conclude(
         for e in total.machinery_errors.iter().take(10) {
             println!("MACHINERY-ERROR: property={} {e}", meta.property);
         }
+        for v in new_violations.iter().take(10) {
+            println!("(unreliable run) violation detail: key={} {}", v.key, v.message);
+        }
         return 2;
     }
 
